@@ -14,6 +14,8 @@ Record c05_case := {
   k_shape : list Z;                    (* declared rank shapes (z: these + 2; a: these unless k_est) *)
   k_est   : bool;                      (* a is built without a declared shape: its rank shapes are
                                           estimated from what it stores *)
+  k_alone : bool;                      (* a is a stand-alone fiber tree (no tensor): every fiber carries
+                                          its own rank attributes (shape, format) *)
   k_body  : list (list Z * act)        (* what the body does with the reference offered at a path;
                                           paths not listed: left alone *)
 }.
@@ -61,11 +63,30 @@ Definition V_ev (sp : srcp) (sz : st) (e : ev) : V :=
   VL [V_path (e_path e); V_tree (e_a e); V_tree (erase (e_z e)); V_state (snap_of sz e);
       Vp VZ VZ (act_of sp e)].
 
+(* what is observed of the source: a tensor's state, or, for a stand-alone fiber tree, its raw
+   tree (there are no rank lists) *)
+Definition V_src (c : c05_case) : V :=
+  if k_alone c then VL [V_tree (k_a c); VL []; Vb true]
+  else V_state (init (k_n c) (k_da c) (k_a c)).
+
+(* a default fiber handed out for an absent coordinate of a stand-alone uncompressed fiber is a
+   fresh fiber with default attributes (compressed); inside a tensor it belongs to the next rank
+   and has that rank's format.  The model's source has one format per rank, so stand-alone cases
+   do not declare two adjacent ranks uncompressed. *)
+Fixpoint no_consec (l : list bool) : bool :=
+  match l with
+  | [] => true
+  | a :: l' => match l' with
+               | [] => true
+               | b :: _ => negb (a && b) && no_consec l'
+               end
+  end.
+
 Definition c05_model (c : c05_case) : V :=
   let sa := init (k_n c) (k_da c) (k_a c) in
   let sz := init (k_n c) (k_dz c) (k_z c) in
   let '(sz', evs) := populate (k_sp c) (bd_of (k_body c)) (k_a c) sz in
-  VL [V_state sa; V_state sz; VL (map (V_ev (k_sp c) sz) evs); V_state sz'; V_state sa].
+  VL [V_src c; V_state sz; VL (map (V_ev (k_sp c) sz) evs); V_state sz'; V_src c].
 
 (* ---------- decoding ---------- *)
 Record oev := { oe_path : list Z; oe_a : tree; oe_z : tree; oe_st : ostate; oe_act : Z * Z }.
@@ -265,7 +286,8 @@ Definition probe_points (d : Z) (zb za : tree) (evs : list oev) : list (list Z) 
 Definition c05_wf (c : c05_case) : bool :=
   Nat.ltb O (k_n c) && wf_tree (k_n c) (k_z c) && wf_tree (k_n c) (k_a c)
   && Nat.eqb (length (k_U c)) (k_n c) && Nat.eqb (length (k_shape c)) (k_n c)
-  && forallb (fun s => 0 <=? s) (k_shape c).
+  && forallb (fun s => 0 <=? s) (k_shape c)
+  && (negb (k_alone c) || (no_consec (k_U c) && negb (k_est c))).
 
 Definition c05_source_ok (c : c05_case) (o : oobs) : bool :=
   oo_a_same o && tree_eqb (o_tree (oo_a0 o)) (k_a c) && tree_eqb (o_tree (oo_a1 o)) (k_a c).
